@@ -467,8 +467,17 @@ func c12Post(c *CheckRun) {
 	if len(total.UnknownSync) > 0 {
 		c.Inconcl = append(c.Inconcl, "synchronisation operations without a happens-before model were met (treated as no-ops, may over-report): "+strings.Join(dedupe(total.UnknownSync), ","))
 	}
-	if total.Conflicts == 0 {
-		c.Broken = append(c.Broken, "vacuous: no conflicting access pair was ever examined (event extraction broken?)")
+	rawEvents := 0
+	for _, inst := range c.Insts {
+		for _, tr := range inst.Traces {
+			for _, t := range tr {
+				rawEvents += len(t)
+			}
+		}
+	}
+	c.Extra["thread_trace_events"] = rawEvents
+	if rawEvents == 0 {
+		c.Broken = append(c.Broken, "vacuous: no shared-memory or synchronisation event was extracted from any call (event extraction broken?)")
 	}
 	sort.Strings(total.Races)
 	c.Extra["race_candidates"] = total.Races
